@@ -1,46 +1,61 @@
 #!/usr/bin/env python3
 """Re-runs every property's rule set on each kept seeded change (scratch copy + patch.diff) and refreshes
-seeded/<id>/meta.json (reported_by) and seeded/INDEX.md."""
-import glob, json, os, sys
+seeded/<id>/meta.json (reported_by) and seeded/INDEX.md.   tools/reeval_seeds.py [seed-name ...]"""
+import glob, json, multiprocessing, os, sys
 HERE = os.path.dirname(os.path.dirname(os.path.abspath(__file__)))
 sys.path.insert(0, HERE)
 from tmv import selftest
 from tmv.scratch import Scratch
 ALL = ["C%02d" % i for i in range(1, 21)]
-rows = []
-only = sys.argv[1:]
-for d in sorted(glob.glob(os.path.join(HERE, "seeded", "*", ""))):
+
+
+def evaluate(d):
     mp = os.path.join(d, "meta.json")
-    if not os.path.exists(mp):
-        continue
     meta = json.load(open(mp))
-    name = os.path.basename(os.path.dirname(d))
-    if not only or name in only:
-        caught = {}
-        with Scratch() as sc:
-            ok, out = sc.apply_patch(os.path.join(d, "patch.diff"))
-            if not ok:
-                meta["reeval_note"] = "patch no longer applies to the current tree: " + out[-120:]
-            else:
-                try:
-                    F = sc.facts()
-                    for p in ALL:
-                        vs, _ = selftest.run_rules(p, F)
-                        if vs:
-                            caught[p] = [v["key"] for v in vs][:6]
-                    meta["reported_by"] = caught
-                    meta["reported_by_own_property"] = meta["breaks_property"] in caught
-                    meta.pop("reeval_note", None)
-                except RuntimeError as ex:
-                    meta["reeval_note"] = "does not compile on the current tree: " + str(ex)[-120:]
-        json.dump(meta, open(mp, "w"), indent=1)
-    own = meta["breaks_property"]
-    rb = meta.get("reported_by", {})
-    rules = sorted({k.split("/")[1] for k in rb.get(own, [])})
-    others = sorted(p for p in rb if p != own)
-    rows.append((name, own, "yes" if own in rb else "NO", ", ".join(rules) or "-", ", ".join(others) or "-", (meta.get("summary") or "")[:140]))
-with open(os.path.join(HERE, "seeded", "INDEX.md"), "w") as fh:
-    fh.write("# Independently seeded breaking changes\n\nEach directory holds patch.diff (the change), demo.diff (a test that passes on the clean tree and fails with the change), NOTES.md (the author's notes) and meta.json. Every change was confirmed in a scratch worktree: the 49 existing tests pass with it, the demonstration passes without it and fails with it.\n\n| seed | breaks | reported by its own property's check | rules | also reported by | what it is |\n|---|---|---|---|---|---|\n")
-    for r in rows:
-        fh.write("| %s | %s | %s | %s | %s | %s |\n" % r)
-print("\n".join("%s %s own=%s rules=%s others=%s" % r[:5] for r in rows))
+    caught = {}
+    with Scratch() as sc:
+        ok, out = sc.apply_patch(os.path.join(d, "patch.diff"))
+        if not ok:
+            meta["reeval_note"] = "patch no longer applies to the current tree: " + out[-120:]
+        else:
+            try:
+                F = sc.facts()
+            except RuntimeError as ex:
+                F = None
+                meta["reeval_note"] = "does not compile on the current tree: " + str(ex)[-120:]
+    if F is not None:
+        for p in ALL:
+            vs, _ = selftest.run_rules(p, F)
+            if vs:
+                caught[p] = [v["key"] for v in vs][:6]
+        meta["reported_by"] = caught
+        meta["reported_by_own_property"] = meta["breaks_property"] in caught
+        meta.pop("reeval_note", None)
+    json.dump(meta, open(mp, "w"), indent=1)
+    return d
+
+
+def main():
+    only = sys.argv[1:]
+    dirs = [os.path.dirname(m) for m in sorted(glob.glob(os.path.join(HERE, "seeded", "*", "meta.json")))]
+    todo = [d for d in dirs if not only or os.path.basename(d) in only]
+    with multiprocessing.get_context("fork").Pool(min(10, max(1, len(todo)))) as pool:
+        pool.map(evaluate, todo, chunksize=1)
+    rows = []
+    for d in dirs:
+        meta = json.load(open(os.path.join(d, "meta.json")))
+        name = os.path.basename(d)
+        own = meta["breaks_property"]
+        rb = meta.get("reported_by", {})
+        rules = sorted({k.split("/")[1] for k in rb.get(own, [])})
+        others = sorted(p for p in rb if p != own)
+        rows.append((name, own, "yes" if own in rb else "NO", ", ".join(rules) or "-", ", ".join(others) or "-", (meta.get("summary") or "").replace("|", "/")[:160]))
+    with open(os.path.join(HERE, "seeded", "INDEX.md"), "w") as fh:
+        fh.write("# Independently seeded breaking changes\n\nEach directory holds patch.diff (the change), demo.diff (a test that passes on the clean tree and fails with the change), NOTES.md (the author's notes) and meta.json. Every change was confirmed in a scratch worktree: the 49 existing tests pass with it, the demonstration passes without it and fails with it.\n\n| seed | breaks | reported by its own property's check | rules | also reported by | what it is |\n|---|---|---|---|---|---|\n")
+        for r in rows:
+            fh.write("| %s | %s | %s | %s | %s | %s |\n" % r)
+    print("\n".join("%s %s own=%s rules=%s others=%s" % r[:5] for r in rows))
+
+
+if __name__ == "__main__":
+    main()
